@@ -128,14 +128,15 @@ func (m *ValueMap) Load(key string) (value *VMValue, ok bool) {
 	return e.load()
 }
 
+// Length returns the number of keys that currently have a value. Deleted keys leave
+// nil/expunged entries behind in read.m and m.dirty, so the raw map sizes cannot be used.
 func (m *ValueMap) Length() int {
-	read, _ := m.read.Load().(readOnlyValueMap)
-	if read.amended {
-		m.mu.Lock()
-		defer m.mu.Unlock()
-		return len(m.dirty)
-	}
-	return len(read.m)
+	n := 0
+	m.Range(func(key string, value *VMValue) bool {
+		n++
+		return true
+	})
+	return n
 }
 
 func (m *ValueMap) Clear() {
